@@ -156,23 +156,29 @@ def recAdj (fn : FastNet W) (rc : Nat → FState W → Res W) (cur : Nat) : List
       | (s', none) =>
         recAdj fn rc cur rest (addProc s' cur (Scalar.mul (getW s'.signals adj) (matW fn adj cur)))
 
+/-- entry of `recursiveActivateNode` for a node not yet activated: mark it as being calculated, reset its pre-signal -/
+def recStart (s : FState W) (cur : Nat) : FState W :=
+  { s with inAct := s.inAct.set cur true, processing := s.processing.set cur Scalar.zero }
+
+/-- tail of `recursiveActivateNode`: add the bias, mark as completed, run the activation function -/
+def recFinish (fn : FastNet W) (σ : Nat → W → Option W) (cur : Nat) (s2 : FState W) : Res W :=
+  let sig := getW s2.processing cur
+  let sig := if fn.nBias > 0 then Scalar.add sig (getW fn.biasList cur) else sig
+  let s3 := { s2 with processing := s2.processing.set cur sig,
+                      activated := s2.activated.set cur true, inAct := s2.inAct.set cur false }
+  match σ (fn.acts.getD cur 0) sig with
+  | none => ({ s3 with signals := s3.signals.set cur negInf }, false, some .unknownAct)
+  | some v => ({ s3 with signals := s3.signals.set cur v }, true, none)
+
 /-- `recursiveActivateNode`; recursion depth ≤ number of neurons, `fuel = nTotal+1` suffices -/
 def recNode (fn : FastNet W) (σ : Nat → W → Option W) : Nat → Nat → FState W → Res W
   | 0, _, s => (s, false, some .fuel)
   | fuel + 1, cur, s =>
     if getB s.activated cur then ({ s with inAct := s.inAct.set cur false }, true, none)
     else
-      let s1 := { s with inAct := s.inAct.set cur true, processing := s.processing.set cur Scalar.zero }
-      match recAdj fn (recNode fn σ fuel) cur (revAdj fn cur) s1 with
+      match recAdj fn (recNode fn σ fuel) cur (revAdj fn cur) (recStart s cur) with
       | (s2, some e) => (s2, false, some e)
-      | (s2, none) =>
-        let sig := getW s2.processing cur
-        let sig := if fn.nBias > 0 then Scalar.add sig (getW fn.biasList cur) else sig
-        let s3 := { s2 with processing := s2.processing.set cur sig,
-                            activated := s2.activated.set cur true, inAct := s2.inAct.set cur false }
-        match σ (fn.acts.getD cur 0) sig with
-        | none => ({ s3 with signals := s3.signals.set cur negInf }, false, some .unknownAct)
-        | some v => ({ s3 with signals := s3.signals.set cur v }, true, none)
+      | (s2, none) => recFinish fn σ cur s2
 
 /-- the initialisation loop of `RecursiveSteps` -/
 def recInit (fn : FastNet W) (s : FState W) : FState W :=
